@@ -201,6 +201,9 @@ def main(mod, tier, seed, replay=None):
             unlisted.append(v)
 
     rep_dir = os.path.join(EVID_DIR, "replays", pid)
+    import shutil as _sh
+
+    _sh.rmtree(rep_dir, ignore_errors=True)  # replays always belong to the latest run
     printed = set()
     viol_lines = []
     for v in unlisted:
